@@ -8,44 +8,60 @@ use kmer::numeric_to_kmer;
 
 /*@@TABLES@@*/
 
-/// Struct built directly (OligoCgrComputer::new calls rayon::current_num_threads);
-/// `kmers` is built the way `new` builds it: numeric_to_kmer of the inverse table.
-pub fn mk(k: usize, rank: &[usize], inv: &[u64], kcount: usize, s: f64, norm: bool) -> OligoCgrComputer {
-    let (cgr_center, cgr_map) = OligoCgrComputer::cgr_maps(s);
-    let mut kmers = vec![String::new(); kcount];
+/// The computer is built by the REAL public constructor `OligoCgrComputer::new` (+ set_norm).
+/// Under Kani two callees are stubbed (see the instance attributes):
+///  * `rayon::current_num_threads` (thread-pool FFI) -> 1,
+///  * `KmerGenerator::kmer_pos_maps` -> the tables of a native run of the real function on
+///    this tree (C03 decides those tables; executing the function inside the solver for
+///    k >= 2 takes minutes because heap data is not constant-propagated).
+/// Native replays run the real constructor without any stub.
+pub fn mk_new(k: usize, size: usize, norm: bool) -> OligoCgrComputer {
+    let mut oc = OligoCgrComputer::new(String::new(), String::new(), k, size);
+    oc.set_norm(norm);
+    oc
+}
+
+#[cfg(kani)]
+pub fn one_thread() -> usize {
+    1
+}
+
+/// stand-in for kmer_pos_maps(k): native tables of THIS tree (k <= 3: the map model holds 32 entries)
+#[cfg(kani)]
+pub fn tables_stub<'a>(ksize: usize) -> (Vec<usize>, kmer::verif_shim::HashMap<usize, u64>, usize)
+where
+    'a: 'a, // early-bound, like the impl lifetime of KmerGenerator<'a> (Kani compares generic counts)
+{
+    let (rank, inv, count): (&[usize], &[u64], usize) = match ksize {
+        1 => (&RANK_K1, &INV_K1, COUNT_K1),
+        2 => (&RANK_K2, &INV_K2, COUNT_K2),
+        _ => (&RANK_K3, &INV_K3, COUNT_K3),
+    };
+    let mut m = kmer::verif_shim::HashMap::new();
     let mut p = 0;
-    while p < kcount {
-        kmers[p] = numeric_to_kmer(inv[p], k);
+    while p < inv.len() {
+        if inv[p] != u64::MAX {
+            m.insert(p, inv[p]);
+        }
         p += 1;
     }
-    OligoCgrComputer {
-        in_path: String::new(),
-        out_path: String::new(),
-        threads: 1,
-        norm,
-        ksize: k,
-        memory: 0,
-        cgr_center,
-        cgr_map,
-        kmers,
-        pos_map: rank.to_vec(),
-        kcount,
-    }
+    (rank.to_vec(), m, count)
 }
 
-pub fn any_size() -> f64 {
+pub fn any_size() -> usize {
     let sz = any_u32();
     assume(sz >= 1 && sz <= (1u32 << 20));
-    sz as f64
+    sz as usize
 }
 
-pub fn c12_body<const K: usize, const N: usize, const NORM: bool>(rank: &[usize], inv: &[u64], kcount: usize, ocol: &[u16], ocanon: &[u64]) {
-    let s = any_size();
+pub fn c12_body<const K: usize, const N: usize, const NORM: bool>(kcount: usize, ocol: &[u16], ocanon: &[u64]) {
+    let size = any_size();
+    let s = size as f64;
     let seq: [u8; N] = any_seq::<N>();
     // concrete length per instance: the real code allocates Vec::with_capacity(seq.len())
     // and then pushes kcount items; a symbolic capacity makes every push fork into re-allocation
     let len = N;
-    let oc = mk(K, rank, inv, kcount, s, NORM);
+    let oc = mk_new(K, size, NORM);
     let res = oc.vectorise_one(&seq[..len]);
     check!(res.is_ok(), "C12: k-mer CGR of a record fails");
     if let Ok(out) = res {
@@ -100,12 +116,12 @@ pub fn c12_body<const K: usize, const N: usize, const NORM: bool>(rank: &[usize]
 }
 
 /// (x, y) of a column is the same in every row: two different records give bit-equal coordinates.
-pub fn c12_rowindep<const K: usize, const N: usize>(rank: &[usize], inv: &[u64], kcount: usize) {
-    let s = any_size();
+pub fn c12_rowindep<const K: usize, const N: usize>(kcount: usize) {
+    let size = any_size();
     let s1: [u8; N] = any_seq::<N>();
     let s2: [u8; N] = any_seq::<N>();
     let norm = any_bool();
-    let oc = mk(K, rank, inv, kcount, s, norm);
+    let oc = mk_new(K, size, norm);
     let r1 = oc.vectorise_one(&s1[..]);
     let r2 = oc.vectorise_one(&s2[..]);
     check!(r1.is_ok() && r2.is_ok(), "C12: k-mer CGR of a record fails");
